@@ -3168,10 +3168,17 @@ def emit(ast: Program) -> str:
         parts.append(LEN_HELPER_SNIPPET + "\n")
     if globals_:
         parts.append("\n".join(globals_) + "\n\n")
-    if function_sections:
-        parts.append("".join(function_sections))
     if ultrasonic_sections:
+        # before the user functions: helpers may call measure_distance()
         parts.append("".join(ultrasonic_sections))
+    if function_sections:
+        # forward declarations let helpers call helpers that are defined later in the script
+        prototypes = [
+            f"{fn.return_type} {fn.name}({', '.join(ptype for _, ptype in fn.params)});"
+            for fn in getattr(ast, "functions", [])
+        ]
+        parts.append("\n".join(prototypes) + "\n\n")
+        parts.append("".join(function_sections))
 
     parts.append(SETUP_START)
     parts.append("\n".join(setup_lines) if setup_lines else "  // no setup actions")
